@@ -298,7 +298,7 @@ pub fn run(ctx: &Ctx) -> Report {
         let mut rng = Rng::derive(seed, 17, shard as u64);
         let alphabet: Vec<char> = "abcdefghijklmnopqrstuvwxyzABCDEFGHIJKLMNOPQRSTUVWXYZ0123456789-_ é日".chars().collect();
         let tags: Vec<&String> = img_ref.by_tag.keys().collect();
-        let rounds = if thorough { 400_000 } else { 30_000 };
+        let rounds = if thorough { 4_000_000 } else { 300_000 };
         for _ in 0..rounds {
             s.clear();
             match rng.below(4) {
